@@ -21,19 +21,6 @@ open Nomt.Wal (PageDiff)
 
 variable {Node VH : Type} [DecidableEq Node] [DecidableEq VH] (H : Hasher Node VH)
 
-/-- `count_leaves` reads the node slots only -/
-theorem countFrom_nodes (pg pg' : Page Node) (h : pg'.nodes = pg.nodes) :
-    ∀ rem idx, countFrom H pg' rem idx = countFrom H pg rem idx := by
-  intro rem
-  induction rem with
-  | zero => intro idx; rfl
-  | succ rem ih =>
-    intro idx
-    simp only [countFrom, h, ih]
-
-theorem countLeaves_nodes (pg pg' : Page Node) (h : pg'.nodes = pg.nodes) : countLeaves H pg' = countLeaves H pg := by
-  unfold countLeaves; rw [countFrom_nodes H pg pg' h, countFrom_nodes H pg pg' h]
-
 /-- the verdict of `handle_elision_threshold` about the page on top of the stack -/
 def elides (w : Walker Node) (sp : StackPage Node) : Bool :=
   match sp.childrenLeaves.or sp.prevChildrenLeaves with
